@@ -31,37 +31,38 @@ Example C31_witness_session_not_committed :
   run_sess (mkcfg [(None, Some 10)] [] [] None true false) [SSetPrimary pw16 4] = ([ROk], E_CU0004, 0, 0).
 Proof. vm_compute. reflexivity. Qed.
 
-(* C31_full_fixed_tree: hypothesis met (accepted) on the fixed variant; refused where the pinned tree accepts *)
+(* C31_full_fixed_tree: hypothesis met (accepted) on the fixed variant; refused where the pre-fix tree accepts *)
 Example C31_witness_posix_fixed :
   posix_op_gen true cfgw_nobad pw20 4 = ROk /\ posix_op_gen true cfgw_nobad pw16 4 = RTooShort 18 /\
   posix_op_gen false cfgw_nobad pw16 4 = ROk.
 Proof. vm_compute. repeat split; reflexivity. Qed.
-(* C31_pinned_tree_partial: an accepted POSIX change outside KnownClass *)
-Example C31_witness_posix_pinned_outside_class :
+(* C31_prefix_partial: an accepted POSIX change outside KnownClass *)
+Example C31_witness_prefix_posix_outside_class :
   posix_op_gen false cfgw_nobad pw20 4 = ROk /\ pwd_wf pw20 = true /\
   (graphemes pw20 <? spec_min (c_pols cfgw_nobad)) = false.
 Proof. vm_compute. repeat split; reflexivity. Qed.
-(* C31_refuted: the refuting inputs are accepted by the pinned POSIX path and lie in KnownClass *)
-Example C31_witness_refuted :
+(* C31_prefix_refuted: the refuting inputs are accepted by the pre-fix POSIX path and lie in KnownClass *)
+Example C31_witness_prefix_refuted :
   posix_op_gen false w_cfg_policy30 w_pw_18 4 = ROk /\ spec_min (c_pols w_cfg_policy30) = 30 /\ graphemes w_pw_18 = 18 /\
   posix_op_gen false w_cfg_default w_pw_comb 4 = ROk /\ graphemes w_pw_comb = 9 /\ bytes w_pw_comb = 27.
 Proof. vm_compute. repeat split; reflexivity. Qed.
 
-(* C31_agree_implies_property: a case that agrees, is not known, and is non-trivial (one stored, one refused) *)
-Example C31_witness_agree :
+(* C31_prefix_agree_implies_property: a case that agrees, is not known, and is non-trivial (one stored, one refused) *)
+Example C31_witness_prefix_agree :
   let c := CGroup cfgw_nobad
      [IPosix pw20 4 ROk 1; IPosix (asc [97;98;99]) 0 (RTooShort 15) 0;
       ISess [SSetUnix pw16 4; SSetPrimary pw20 4] [RTooShort 18; ROk] 0 2 0] in
   agree_gen false c = true /\ known_gen false c = false /\ pcheck c = true.
 Proof. vm_compute. repeat split; reflexivity. Qed.
-Example C31_witness_agree_fixed :
+(* C31_agree_implies_property (current tree): a non-trivial agreeing case *)
+Example C31_witness_agree :
   let c := CGroup cfgw_nobad
      [IPosix pw20 4 ROk 1; IPosix pw16 4 (RTooShort 18) 0;
       ISess [SSetUnix pw16 4; SSetPrimary pw20 4] [RTooShort 18; ROk] 0 2 0] in
-  agree_gen true c = true /\ known_gen true c = false /\ pcheck c = true.
+  agree c = true /\ known c = false /\ pcheck c = true.
 Proof. vm_compute. repeat split; reflexivity. Qed.
-(* the known class is recognised on the pinned variant and is a model disagreement on the fixed variant *)
-Example C31_witness_known :
+(* the known class is recognised on the pre-fix variant and is a model disagreement on the fixed variant *)
+Example C31_witness_prefix_known :
   let c := CGroup w_cfg_policy30 [IPosix w_pw_18 4 ROk 1] in
   agree_gen false c = true /\ pcheck c = false /\ known_gen false c = true /\ agree_gen true c = false /\ known_gen true c = false.
 Proof. vm_compute. repeat split; reflexivity. Qed.
